@@ -62,6 +62,7 @@ def run(ctx):
     r3(ctx, facts)
     r4(ctx, facts)
     r4_scan(ctx, facts)
+    r9_runtime_metadata(ctx, facts)
     # which formatter's line a sink receives (shared with C16.R3: own override pattern if the sink has one, else the logger's)
     from rules import c16
     from rules.c09 import Renamed
@@ -446,6 +447,90 @@ def r4_scan(ctx, facts):
     uses = [c for fn_ in [df] + lam for c in fn_.calls(r"PatternFormatterOptions::operator(==|!=)$")]
     ctx.ob("C12.R7c", "_dispatch_transit_event_to_sinks:shares-by-options-equality", bool(uses),
            "a logger adopts another logger's formatter only after comparing the two option sets (%d comparison(s))" % len(uses), fn=df)
+
+
+def r9_runtime_metadata(ctx, facts):
+    """runtime-supplied source metadata (LOG_RUNTIME_METADATA): applied exactly for that kind of record, after the text was formatted;
+    the four parts are cut at the separators; the metadata object found or created is the one attached to the event"""
+    from rules.common import reach_under_enum
+    dec = facts.need(BW + "_populate_transit_event_from_frontend_queue", "A")[0]
+    g = dec.g
+    en = facts.enum("quill::MacroMetadata::Event", "A")
+    if not en:
+        raise AnalysisBroken("MacroMetadata::Event not found")
+    names = [n for (n, _v) in en["enumerators"]]
+    ap = npos(dec, dec.calls(r"BackendWorker::_apply_runtime_metadata$"))
+    pop = npos(dec, dec.calls(r"BackendWorker::_populate_formatted_log_message$"))
+    pb = npos(dec, dec.calls(r"TransitEventBuffer::push_back$"))
+    if not ap:
+        ctx.ob("C12.R9a", "decode:runtime-metadata-applied", False, "a LogWithRuntimeMetadata record never gets its file / line / function applied", fn=dec)
+        return
+    bad = []
+    for e in names:
+        r_ = reach_under_enum(g, r"MacroMetadata::event$", names, e)
+        reach = any(p_ in r_ for p_ in ap)
+        if reach != (e == "LogWithRuntimeMetadata"):
+            bad.append("%s: applied=%s" % (e, reach))
+    # for that kind: on the no-named-args arm every path from formatting to push_back applies it, and it comes after the formatting
+    na = [(b, t) for (b, t, c) in branches_on_call(dec, r"MacroMetadata::has_named_args$")]
+    r_ = reach_under_enum(g, r"MacroMetadata::event$", names, "LogWithRuntimeMetadata")
+    from rules.common import inconsistent_edges
+    inc = inconsistent_edges(g, r"MacroMetadata::event$", names, "LogWithRuntimeMetadata")
+    start = [p_ for p_ in pop if p_ in r_ and not g.exists_path([g.entry_node], [p_], avoid_edges=[(b, other(t)) for (b, t) in na])]
+    skipped = bool(start) and g.exists_path(start, pb, avoid_nodes=ap, avoid_edges=inc)
+    after = all(g.dominates(pop, p_) for p_ in ap) if pop else False
+    ctx.ob("C12.R9a", "decode:runtime-metadata-applied", not bad and not skipped and after,
+           "exhaustive over MacroMetadata::Event: _apply_runtime_metadata is reached exactly for LogWithRuntimeMetadata (%s), on every "
+           "path of such a record from the formatting of its text to push_back (%s), and only after the text was formatted (%s)" %
+           ("; ".join(bad) or "ok", not skipped, after), fn=dec)
+    f = facts.need(BW + "_apply_runtime_metadata", "A")[0]
+    fg = f.g
+    inits = f.var_inits()
+    # the found / created metadata is attached on both outcomes of the lookup
+    asg = [n for n in f.walk() if n["k"] == "BinaryOperator" and n["op"] == "=" and field_name(n["lhs"]) == "macro_metadata"]
+    found = []
+    for bid, b in fg.blocks.items():
+        c = fg.term_cond(bid)
+        if c is None:
+            continue
+        core, neg = core_and_neg(c)
+        cs_ = strip(core, casts=True)
+        if isnode(cs_) and is_call(cs_, r"operator(==|!=)") and any(is_call(x, r"::end$") and is_this_field(call_obj(x), "_runtime_metadata") for x in walk(cs_)):
+            lab = "F" if "operator==" in cs_["callee"] else "T"
+            found.append((bid, other(lab) if neg else lab))
+    ap2 = npos(f, asg)
+    hit = [n for n in asg if any(x["k"] == "MemberExpr" and x.get("mname") == "second" for x in walk(n["rhs"])) and
+           any(x["k"] == "DeclRefExpr" and x.get("dk") in ("Var",) and "search" in x.get("name", "") for x in walk(n["rhs"]))]
+    mk = [n for n in f.walk() if is_call(n, r"^std::make_unique<quill::(v\d+::)?MacroMetadata")]
+    ok_b = len(asg) >= 2 and bool(found) and not fg.exists_path([fg.entry_node], [fg.exit_node], avoid_nodes=ap2) and bool(mk) and \
+        all(not fg.exists_path([fg.entry_node], fg.positions(n), avoid_edges=found) for n in hit) and \
+        all(not fg.exists_path([fg.entry_node], fg.positions(n), avoid_edges=[(b, other(l)) for (b, l) in found]) for n in mk)
+    ctx.ob("C12.R9b", "_apply_runtime_metadata:metadata-attached", ok_b,
+           "the event's metadata pointer is set on every path: to the cached entry on the 'found' outcome of the lookup (the end "
+           "iterator is never dereferenced), to a freshly created MacroMetadata otherwise", fn=f)
+    # created metadata: file:line, function, level Dynamic, event Log, template "{}"
+    ok_c = False
+    for m in mk:
+        lv = [x["name"].split("::")[-1] for x in walk(m) if x["k"] == "DeclRefExpr" and x.get("dk") == "EnumConstant"]
+        lit = [x.get("str") for x in walk(m) if x["k"] == "StringLiteral"]
+        firsts = [x.get("mname") for a in m["args"][:2] for x in walk(a) if x["k"] == "MemberExpr" and x.get("mname") in ("first", "second")]
+        ok_c = "Dynamic" in lv and "Log" in lv and "{}" in lit and firsts[:4].count("first") >= 2 and "second" in firsts
+    ctx.ob("C12.R9c", "_apply_runtime_metadata:created-metadata", ok_c,
+           "a created MacroMetadata carries the key's file:line as source location and the key's function name, level Dynamic (the level "
+           "travels with the record), event Log and the pass-through template \"{}\"", fn=f)
+    # the message keeps only its own part: resize to the length of the first component
+    parts = {}
+    for vid, i in inits.items():
+        d = f.var_decls().get(vid, {})
+        if d.get("name") in ("message", "file", "line", "function_name"):
+            parts[d["name"]] = i
+    rs = [c for c in f.calls(r"::try_resize$|::resize$") if any(x["k"] == "MemberExpr" and x.get("mname") == "formatted_msg" for x in walk(call_obj(c)))]
+    msg_v = [vid for vid, d in f.var_decls().items() if d.get("name") == "message"]
+    ok_d = len(parts) == 4 and bool(rs) and bool(msg_v) and all(any(is_call(x, r"::(size|length)$") and var_ref(call_obj(x)) == msg_v[0] for x in walk(c["args"][0])) for c in rs) and \
+        const_val([c for c in walk(parts["message"]) if is_call(c, r"basic_string_view<.*>::substr$")][0]["args"][0]) == 0
+    ctx.ob("C12.R9d", "_apply_runtime_metadata:message-part-kept", ok_d,
+           "the text is cut into message / file / line / function at the separators, the message is the part from offset 0 and the "
+           "event's formatted text is shortened to exactly its length", fn=f)
 
 
 def r5(ctx, facts):
